@@ -20,7 +20,13 @@ TRUSTED_BASE = [
 ]
 ASSUMPTIONS = ["different PYTHONHASHSEED values and junk allocations before import move string hashes and object addresses, "
                "which is what set iteration order depends on"]
-PARTIAL = ["C14_merge_full (equivb-invariance of shrink_top with TypedDicts) and C14_full (invariance through the rewriters under a consistent-MRO premise) are stated as Definitions and only tested (vm_compute sweeps, differential runs); proved: member_equivb, equivb is an equivalence on well-formed types, union_mk and the TypedDict-free merge are order- and multiplicity-insensitive (membership level), sorting and distinct-row extraction are permutation invariant; the ambiguous-ancestor dependence of RewriteLargeUnion is refuted with a Coq witness"]
+PARTIAL = ["the literal statement C14_full (kept as a Definition) is refuted in Coq (class tables whose MRO omits the class, "
+           "inputs not in typing's normal form); proved is the strongest true variant: C14_merge_full_holds (merge order/"
+           "duplication invariance up to equivb, TypedDicts anywhere), rw_equiv_invariant / rw_chain_equiv_invariant / "
+           "merge_rewrite_perm_inputs_partial (merge-then-rewrite is permutation invariant for normal inputs outside the "
+           "recorded class kf_td_under_union, consistent self-listing MROs); inside kf_td_under_union and for ambiguous "
+           "ancestors (kf_rlu_ambiguous_ancestor, Coq witness) the dependence on order is a recorded finding",
+           "SQLite's GROUP BY / ORDER BY and CPython's set iteration are exercised (separate interpreters, hash seeds), not modelled"]
 
 FIXTURE = '''
 class X: pass
@@ -143,6 +149,15 @@ def build_scenario(rnd, fx, idx):
             else:
                 ret = None if rnd.random() < 0.1 else get_type(gen(2), k)
                 traces.append(CallTrace(fn, args, ret))
+    if idx % 6 == 3:
+        # two functions with a same-named dict parameter of different shape, limit 3: the generated class names collide
+        k = 3
+        shapes = [{"host": "h", "port": 1}, {"debug": True, "root": "r", "workers": 2}, {"host": "h"}, {"x": 1.5, "y": None}]
+        rnd.shuffle(shapes)
+        traces = [t for t in traces if not any("TypedDict" in repr(a) for a in list(t.arg_types.values()) + [t.return_type])]
+        traces.append(CallTrace(fx.f0, {"a": get_type(shapes[0], 3), "b": int}, type(None)))
+        traces.append(CallTrace(fx.f1, {"a": get_type(shapes[1], 3)}, type(None)))
+        traces.append(CallTrace(fx.K.m, {"a": get_type(shapes[2], 3), "b": str}, int))
     if directed:
         for c in (fx.B1, fx.B2, fx.B3, fx.C1, fx.C2, fx.C3):
             traces.append(CallTrace(fx.f1, {"a": c}, type(None)))
@@ -169,7 +184,37 @@ def presentations(rnd, traces):
     # the number of DISTINCT rows the answer must still contain every distinct row
     first = traces[0]
     out.append(("many_duplicate_batches_limited", [[first]] * 12 + [list(traces)]))
+    # every trace recorded by its own run, the runs on different days in a random order: the store answers
+    # ORDER BY date(created_at), so this is the presentation that really changes the order in which rows come back
+    dd = list(traces)
+    rnd.shuffle(dd)
+    days = list(range(len(dd)))
+    rnd.shuffle(days)
+    out.append(("runs_on_different_days", [[t] for t in dd], days))
     return out
+
+
+def add_on_day(db, batch, day):
+    """SQLiteStore.add with the clock set `day` days back (created_at is datetime.datetime.now() in sqlite.py)"""
+    import datetime as real
+    import types
+    import monkeytype.db.sqlite as sq
+    from monkeytype.db.sqlite import SQLiteStore
+    if day is None:
+        SQLiteStore.make_store(db).add(batch)
+        return
+    stamp = real.datetime(2024, 1, 1, 12, 0, 0) + real.timedelta(days=day)
+
+    class _DT(real.datetime):
+        @classmethod
+        def now(cls, tz=None):
+            return stamp
+    saved = sq.datetime
+    sq.datetime = types.SimpleNamespace(datetime=_DT)
+    try:
+        SQLiteStore.make_store(db).add(batch)
+    finally:
+        sq.datetime = saved
 
 
 def run_cli(work, db, k, rewrite, hashseed, junk, limit=None):
@@ -242,11 +287,13 @@ def run(ctx):
                 keys.add((r.module, r.qualname, r.arg_types, r.return_type, r.yield_type))
             sc["limit"] = len(keys) + 2          # just above the number of distinct rows; every presentation uses it
             scen.append(sc)
-            for j, (name, batches) in enumerate(presentations(rnd, sc["traces"])):
+            for j, pres in enumerate(presentations(rnd, sc["traces"])):
+                name, batches = pres[0], pres[1]
+                days = pres[2] if len(pres) > 2 else [None] * len(batches)
                 db = os.path.join(work, f"s{i}_{j}.sqlite3")
-                for b in batches:
+                for b, day in zip(batches, days):
                     if b:
-                        SQLiteStore.make_store(db).add(b)
+                        add_on_day(db, b, day)
                 jobs.append((i, name, db, rnd.choice([0, 1, 7, 12345]) if j else 0, rnd.choice([0, 1000, 50000]) if j else 0))
         with ThreadPoolExecutor(max_workers=common.NCPU) as ex:
             outs = list(ex.map(lambda jb: run_cli(work, jb[2], scen[jb[0]]["k"], scen[jb[0]]["rewrite"], jb[3], jb[4], scen[jb[0]]["limit"]), jobs))
@@ -322,6 +369,10 @@ def run(ctx):
                                f"(PYTHONHASHSEED={c['hashseed']}, junk={c['junk']}, k={c['k']}, rewrite={c['rewrite']})")
                 if code == 5:
                     rec["finding"] = "kf_rlu_ambiguous_ancestor"
+                if code == 6:
+                    rec["finding"] = "kf_hint_collision"
+                    rec["what"] += (" - the stubs hold the same generated classes, but two of them share a name and are emitted "
+                                    "in row order, so the shadowed name denotes a different class")
                 failures.append(rec)
         return {
             "evaluations": len(cases), "distinct_nontrivial": len({common.digest(c["term"]) for c in good if c["presentation"] != "reference"}),
@@ -349,15 +400,20 @@ def replay(ctx, payload):
 
 
 CLAIM = {
-    "text": "Partial. Coq theorems (Props/C14.v): set-like equivalence of types (`equivb`: union members as sets, TypedDict fields "
-            "as maps) preserves membership of every value; union_mk admits the same values for every permutation/duplication of "
-            "its members; sorting by name and distinct-row extraction are permutation invariant. The full pipeline statement "
-            "C14_full is kept as a Definition. Tie: the real CLI run on 5 presentations of each trace set (order, duplication, "
-            "batching/connections) in separate interpreters with different PYTHONHASHSEED and memory layout; stubs compared per "
-            "position with `equivb` evaluated in Coq, and the reference stub compared with the model (shrink_top + default chain).",
-    "note": "Partial: permutation invariance of shrink_top and of the rewriters is not proved (only tested); finding "
-            "kf_rlu_ambiguous_ancestor recorded. Trusted: Coq kernel + vm_compute, harness/stubeval.py, SQLite, CPython set order.",
-    "technique": "Coq proofs about the equivalence and the order-insensitive skeleton + vm_compute differential comparison of real "
-                 "stubs across presentations/processes",
+    "text": "Coq theorems (Props/C14.v, 38): `equivb` (union members as sets, TypedDict fields as maps) is an equivalence on "
+            "well-formed types and preserves membership of every value (member_equivb); C14_merge_full_holds: permuting or "
+            "duplicating the inputs of the merge gives an equivb-equal result, TypedDicts anywhere; rw_equiv_invariant, "
+            "rw_chain_equiv_invariant, merge_rewrite_perm_inputs_partial: every shipped rewriter and chain maps equivb-equal "
+            "normal types outside kf_td_under_union to equivb-equal types, so merge-then-rewrite is permutation invariant; "
+            "sorting by name and distinct-row extraction are permutation invariant. The literal C14_full is refuted "
+            "(C14_full_refuted, C14_rw_nonnormal_refuted, C14_rw_unrestricted_refuted) - its premises had to be strengthened. "
+            "Tie: the real CLI on 6 presentations of each trace set (order, duplication, batching/connections, --limit) in "
+            "separate interpreters with different PYTHONHASHSEED and memory layout; stubs compared per position with `equivb` "
+            "evaluated in Coq, and the reference stub compared with the model (shrink_top + default chain).",
+    "note": "Partial only in that SQLite and CPython set order are exercised, not modelled, and that inside the recorded "
+            "classes kf_td_under_union / kf_rlu_ambiguous_ancestor the output does depend on order (findings). Trusted: Coq "
+            "kernel + vm_compute, harness/stubeval.py, SQLite.",
+    "technique": "Coq proofs (induction over types and merges, permutation invariance up to a set-like equivalence) + "
+                 "vm_compute differential comparison of real stubs across presentations/processes",
     "ref": "4/C14",
 }
